@@ -41,17 +41,21 @@ def analyse(roots, resolved, records=()):
     """zone marking with `resolved` nodes (id -> var) treated as frontier leaves"""
     order = topo_view(roots, resolved)
     zone = {}
+    above_istage = {}
     peel = set()
     for t in order:
         if t.id in resolved:
             zone[t.id] = False
             continue
         z = t.sort == 'F' or t.op in ZONE_OPS
-        if not z:
+        if not z and t.op != 'istage':
             for a in t.args:
-                if zone[a.id]:
+                # everything above a zone node or above an integer cut point is evaluated concretely
+                if zone[a.id] or a.op == 'istage' or above_istage.get(a.id):
                     z = True
                     break
+        if t.op != 'istage' and any(a.op == 'istage' or above_istage.get(a.id) for a in t.args):
+            above_istage[t.id] = True
         zone[t.id] = z
     # peel the integer arithmetic of table keys so that their digits become frontier terms
     def peel_from(t):
@@ -186,6 +190,145 @@ def group_terms(terms, memo):
 
 # ------------------------------------------------------------------ AllSAT on a group
 
+_PE = {}
+
+
+def _pe_worker(chunk):
+    """enumerate the group's tuples under each assignment of the split terms in chunk"""
+    g = _PE
+    enum = Enumerator(g['assumptions'], g['terms'], g['solver'], g['timeout'])
+    out = []
+    complete = True
+    q = 0
+    try:
+        for sv in chunk:
+            fixed = list(zip(g['split'], sv))
+            tups, ok = enum.tuples_under(g['rest'], fixed)
+            complete = complete and ok
+            for tp in tups:
+                out.append((sv, tp))
+        q = enum.queries
+    finally:
+        enum.close()
+    return out, complete, q
+
+
+def parallel_tuples(assumptions, grp, split, solver, timeout, workers, enum, log):
+    """AllSAT of a large group, partitioned on the values of the split terms"""
+    svals, ok = enum.tuples(split)
+    if not ok:
+        return [], False, 0
+    rest = [t for t in grp if t not in split]
+    _PE.clear()
+    _PE.update({'assumptions': assumptions, 'terms': grp, 'split': split, 'rest': rest, 'solver': solver, 'timeout': timeout})
+    nchunks = min(len(svals), workers * 4)
+    chunks = [svals[i::nchunks] for i in range(nchunks)]
+    tuples = []
+    complete = True
+    queries = 0
+    pos = {t.id: i for i, t in enumerate(split)}
+    rpos = {t.id: i for i, t in enumerate(rest)}
+    with multiprocessing.Pool(workers) as pool:
+        for out, ok, q in pool.imap_unordered(_pe_worker, chunks):
+            complete = complete and ok
+            queries += q
+            for sv, tp in out:
+                tuples.append(tuple(sv[pos[t.id]] if t.id in pos else tp[rpos[t.id]] for t in grp))
+    log('      partitioned AllSAT: %d partitions, %d tuples, %d queries' % (len(svals), len(tuples), queries))
+    return tuples, complete, queries
+
+
+def fine_frontier(terms_, maxbits, memo):
+    """maximal subterms (below terms_) whose value depends on at most maxbits input bits"""
+    out = {}
+    seen = set()
+    stack = list(terms_)
+    while stack:
+        t = stack.pop()
+        if t.id in seen or t.op == 'const':
+            continue
+        seen.add(t.id)
+        if t.op == 'var' or len(support(t, memo)) <= maxbits or all(a.op in ('var', 'const') for a in t.args):
+            # small support, or an atomic predicate / extraction on the inputs (cannot be split further)
+            out[t.id] = t
+            continue
+        stack.extend(t.args)
+    return list(out.values())
+
+
+_DV = {}
+
+
+def _dv_worker(rg):
+    import numpy as np
+    import vecval
+    g = _DV
+    lo, hi = rg
+    idx = np.arange(lo, hi, dtype=np.int64)
+    env = {}
+    for (cols, size, stride) in g['groups']:
+        dig = (idx // stride) % size
+        for name, arr in cols:
+            env[name] = arr[dig]
+    res = vecval.evaluate(g['outs'], env, hi - lo)
+    mat = np.stack([r.astype(np.uint64) for r in res], axis=1)
+    return np.unique(mat, axis=0)
+
+
+def derive_tuples(grp, enum, workers, log, maxbits=5, memo=None):
+    """value tuples of the (coarse) terms grp: the solver enumerates the tuples of a finer frontier
+    (small bit-field terms, grouped by support; final unsat = coverage), the coarse terms are then
+    evaluated exactly (integer/Boolean ops only) over the product of those tuples"""
+    import numpy as np
+    memo = {} if memo is None else memo
+    fine = fine_frontier(grp, maxbits, memo)
+    fgroups = group_terms(fine, memo)
+    gdesc = []
+    total = 1
+    complete = True
+    sub = {}
+    for fg in fgroups:
+        fg.sort(key=lambda t: t.id)
+        tups, ok = enum.tuples(fg)
+        complete = complete and ok
+        if not tups:
+            return [], False, {'reason': 'empty fine group'}
+        cols = []
+        for j, t in enumerate(fg):
+            v = TM.var('ff%d' % t.id, t.sort)
+            sub[t.id] = v
+            if t.sort == 'B':
+                arr = np.array([bool(tp[j]) for tp in tups])
+            else:
+                arr = np.array([tp[j] for tp in tups], dtype=np.uint64)
+            cols.append((v.val, arr))
+        gdesc.append([cols, len(tups), None])
+        total *= len(tups)
+    stride = 1
+    for gd in gdesc:
+        gd[2] = stride
+        stride *= gd[1]
+    outs = [substitute(t, sub) for t in grp]
+    _DV.clear()
+    _DV.update({'groups': [tuple(g) for g in gdesc], 'outs': outs})
+    chunk = 400000
+    ranges = [(i, min(total, i + chunk)) for i in range(0, total, chunk)]
+    t0 = time.time()
+    uniq = None
+    if len(ranges) == 1 or workers <= 1:
+        parts = [_dv_worker(r) for r in ranges]
+    else:
+        with multiprocessing.Pool(workers) as pool:
+            parts = list(pool.imap_unordered(_dv_worker, ranges, chunksize=1))
+    allm = np.unique(np.concatenate(parts, axis=0), axis=0)
+    tuples = []
+    for row in allm:
+        tuples.append(tuple(bool(x) if t.sort == 'B' else int(x) for x, t in zip(row, grp)))
+    info = {'fine_terms': len(fine), 'fine_groups': [g[1] for g in gdesc], 'fine_cubes': total, 'coarse_tuples': len(tuples), 'eval_s': round(time.time() - t0, 1)}
+    log('      derived %d tuples of the %d coarse frontier terms from %d fine cubes (%s) in %.1fs' % (len(tuples), len(grp), total, 'x'.join(str(g[1]) for g in gdesc), time.time() - t0))
+    return tuples, complete, info
+
+
 def valstr(t, v):
     if t.sort == 'B':
         return 'true' if v else 'false'
@@ -243,6 +386,16 @@ class Enumerator(object):
         s.send('(pop 1)')
         self.time += time.time() - t0
         return out, complete
+
+    def tuples_under(self, terms_, fixed, limit=2000000):
+        """tuples of terms_ under the extra constraints fixed = [(term, value)]"""
+        s = self.s
+        s.send('(push 1)')
+        for t, v in fixed:
+            s.send('(assert (= %s %s))' % (TM.name(t), valstr(t, v)))
+        r = self.tuples(terms_, limit)
+        s.send('(pop 1)')
+        return r
 
     def witness(self, constraints):
         """model of the inputs with term == value for every (term, value)"""
@@ -386,7 +539,7 @@ def _fold_init():
             e = z3.fpRoundToIntegral(rms[t.val], a[0])
         elif op == 'bits2f':
             e = z3.fpBVToFP(a[0], z3.Float64())
-        elif op == 'stage' or op == 'name':
+        elif op in ('stage', 'name', 'istage'):
             e = a[0]
         else:
             raise ValueError('fold: unsupported op ' + op)
@@ -585,7 +738,12 @@ def tabulate(assumptions, roots, tables, log, use_z3=True, workers=16, solver='z
                 grp.sort(key=lambda t: t.id)
                 key = tuple(t.id for t in grp)
                 if key not in group_cache:
-                    tups, complete = enum.tuples(grp)
+                    split = [t for t in grp if t.op == 'istage']
+                    if split and len(grp) > len(split):
+                        tups, complete, info = derive_tuples(grp, enum, workers, log, memo=memo)
+                        rep.setdefault('derived', []).append(info)
+                    else:
+                        tups, complete = enum.tuples(grp)
                     group_cache[key] = (tups, complete)
                     if not complete:
                         rep['coverage_complete'] = False
